@@ -23,7 +23,7 @@ class Gone(Exception):
 
 class OnionWorld:
     def __init__(self, seed=0, names=("o", "r1", "r2", "x"), exits=("x",), cands=None, first=None, settings=None,
-                 origins=("o",), suspend_join=False, overlay_factory=None):
+                 origins=("o",), suspend_join=False, overlay_factory=None, dual_stack=False):
         from ipv8.messaging.anonymization.community import TunnelCommunity
         if overlay_factory is not None:
             # additive option (G06): the nodes run the class the factory returns (a subclass of TunnelCommunity)
@@ -61,7 +61,7 @@ class OnionWorld:
         self.exits = set(exits)
         settings = settings or {}
         for nm in names:
-            node = Node(self.net)
+            node = Node(self.net, wiring="dual" if dual_stack else "plain")
             flags = {RELAY, SPEED} | ({EXIT_BT, EXIT_IPV8} if nm in exits else set())
             ov = self.loop.call(node.add, TunnelCommunity, peer_flags=flags, **settings)
             self.nodes[nm] = node
@@ -71,6 +71,10 @@ class OnionWorld:
         # the attacker: an address and a key, no overlay
         self.adv = Node(self.net)
         self.addr_name = {self.nodes[n].address: n for n in names}
+        self.dual_stack = dual_stack
+        self.n_adv_put = 0
+        if dual_stack:
+            self.addr_name.update({(self.nodes[n].address6[0], self.nodes[n].address6[1]): n for n in names})
         self.addr_name[self.adv.address] = "adv"
         self.key_name = {self.nodes[n].my_peer.public_key.key_to_bin(): n for n in names}
         self.key_name[self.adv.my_peer.public_key.key_to_bin()] = "adv"
@@ -675,8 +679,15 @@ class OnionWorld:
         return self.log("Splice", id=seq, cid=spec_cid)
 
     def _adv_put(self, src, dst, data):
-        dg = self.net.inject(self.nodes[src].address if src in self.nodes else self.adv.address,
-                             self.nodes[dst].address, data)
+        self.n_adv_put += 1
+        if self.dual_stack and self.n_adv_put % 2:
+            # every other fabricated datagram arrives on the node's IPv6 interface (to the spec a node is a node)
+            dg = self.net.inject(self.nodes[src].address6 if src in self.nodes else ("fd00::dead", 8090),
+                                 self.nodes[dst].address6, data)
+            self.addr_name.setdefault(("fd00::dead", 8090), "adv")
+        else:
+            dg = self.net.inject(self.nodes[src].address if src in self.nodes else self.adv.address,
+                                 self.nodes[dst].address, data)
         self.net.inflight.append(dg)
         return dg
 
